@@ -183,6 +183,15 @@ const (
 	NumStrategies
 )
 
+// Special strategies a world may select explicitly (never drawn from the tape).
+const (
+	// StratNetReverse lets every other task run first and then releases parked deliveries
+	// (ClassNet) in reverse order of arrival.
+	StratNetReverse = 100 + iota
+	// StratNetFIFO is the same with deliveries in arrival order.
+	StratNetFIFO
+)
+
 type Run struct {
 	Sim     *simrt.Sim
 	In      Input
@@ -288,6 +297,23 @@ func (r *Run) pick(ready []*simrt.Task) *simrt.Task {
 					return 1 + g.Intn(n-1)
 				}
 				return g.Intn(n)
+			case StratNetReverse, StratNetFIFO:
+				// non-delivery tasks first (continue the current one if possible)
+				if hasPrev && alts[0].Class != simrt.ClassNet {
+					return 0
+				}
+				for i, t := range alts {
+					if t.Class != simrt.ClassNet {
+						return i
+					}
+				}
+				bi := 0
+				for i, t := range alts {
+					if (r.Strategy == StratNetReverse && t.ID > alts[bi].ID) || (r.Strategy == StratNetFIFO && t.ID < alts[bi].ID) {
+						bi = i
+					}
+				}
+				return bi
 			case StratPCT:
 				best, bi := uint64(0), 0
 				for i, t := range alts {
